@@ -38,6 +38,7 @@ type Stream interface {
 	GetObservers() *wrapper.ConcurrentSwissMap[uint16, couchbase.Observer]
 	GetMetric() (*Metric, int32)
 	UnmarkDirtyOffsets()
+	MarkDirtyOffsets(dirtyOffsets map[uint16]bool)
 	GetCheckpointMetric() *CheckpointMetric
 	IsOpen() bool
 }
@@ -469,6 +470,15 @@ func (s *stream) GetCheckpointMetric() *CheckpointMetric {
 func (s *stream) UnmarkDirtyOffsets() {
 	s.anyDirtyOffset = false
 	s.dirtyOffsets = wrapper.CreateConcurrentSwissMap[uint16, bool](1024)
+}
+
+func (s *stream) MarkDirtyOffsets(dirtyOffsets map[uint16]bool) {
+	for vbID, dirty := range dirtyOffsets {
+		if dirty {
+			s.dirtyOffsets.Store(vbID, true)
+		}
+	}
+	s.anyDirtyOffset = true
 }
 
 func NewStream(client couchbase.Client,
